@@ -303,7 +303,10 @@ Guarded(e) == "guard" \in DOMAIN e /\ e.guard
 AtResolution == \E k \in 2..Len(spts) : QLeq(QSub(spts[k].x, spts[k - 1].x), QPow2(0 - 40))
 
 EvRet(e) ==
-  LET refined == ((e.name = "solve" /\ scfg.refine) \/ e.name = "localref" \/ (e.name = "observe" /\ sn.lastref)) /\ strials > 0
+  \* a refined solution stays the solution until a global trial rewrites it: an observation, or a call that made no trial at all
+  \* (Solve entered with the criterion already true), still shows the refined one
+  LET refined == ((e.name = "solve" /\ scfg.refine) \/ e.name = "localref"
+                  \/ ((e.name = "observe" \/ (e.name \in {"solve", "dgi"} /\ strials = scall0)) /\ sn.lastref)) /\ strials > 0
       g == Guarded(e)
       solveok == e.name = "solve" /\ ~sfault /\ ~g
       f == SnapAll(e.snap)
